@@ -36,12 +36,15 @@
 (*   ReadQuery picks ANY pending datagram (no order promised), a malformed *)
 (*   datagram is skipped (ReadBad keeps reading), a nil payload is dropped *)
 (*   silently, there are no deadlines; ListenerClose = the owner closes    *)
-(*   the socket, after which the read fails and ServeUDP returns.          *)
+(*   the socket, after which the read fails and ServeUDP returns (a        *)
+(*   datagram already queued may still be read; a reply already sent may   *)
+(*   still arrive).                                                        *)
 (***************************************************************************)
 EXTENDS Naturals, Sequences, FiniteSets, TLC, Json
 
 CONSTANTS
     Conns, Ids, Mode, WithHist,
+    GenLen,    \* generator: number of logged steps per exported behaviour
     MaxG,      \* bound: garbage units a client sends per connection
     DEV        \* deviation switch for the non-vacuity runs; "none" = the design
 
@@ -152,9 +155,8 @@ Release(q, k) ==
 
 ListenerClose ==
     /\ lst = "open" /\ lst' = "closed"
-    /\ cst' = IF TCP THEN cst ELSE [cst EXCEPT ![1] = "closed"]
     /\ H([a |-> "ListenerClose"])
-    /\ UNCHANGED <<cl, pend, part, rpc, nread, dl, fired, cctx, qc, qst, wr, ng, late>>
+    /\ UNCHANGED <<cst, cl, pend, part, rpc, nread, dl, fired, cctx, qc, qst, wr, ng, late>>
 
 ---------------------------------------------------------------------------
 \* SERVER
@@ -179,15 +181,20 @@ ArmClosed(c) ==
 Heads(c) == IF pend[c] = <<>> THEN {} ELSE IF TCP THEN {1} ELSE 1..Len(pend[c])
 Drop(s, i) == [j \in 1..(Len(s) - 1) |-> IF j < i THEN s[j] ELSE s[j + 1]]
 
-ReadQuery(c) ==
+\* lateok: only used by the trace spec - a datagram that was already queued may be read although the owner
+\* has (logged that it is about to) close the socket
+ReadQueryG(c, lateok) ==
     /\ rpc[c] = "read" /\ cst[c] = "open" /\ ~fired[c]
+    /\ TCP \/ lst = "open" \/ lateok
     /\ \E i \in Heads(c) :
          /\ pend[c][i].k = "q"
          /\ qst' = [qst EXCEPT ![pend[c][i].id] = "read"]
          /\ pend' = [pend EXCEPT ![c] = Drop(@, i)]
+         /\ H([a |-> "ReadQuery", c |-> c, q |-> pend[c][i].id])
     /\ nread' = [nread EXCEPT ![c] = @ + 1]
     /\ rpc' = [rpc EXCEPT ![c] = IF TCP THEN "arm" ELSE "read"]
-    /\ UNCHANGED <<lst, cst, cl, part, dl, fired, cctx, qc, wr, ng, late, hist>>
+    /\ UNCHANGED <<lst, cst, cl, part, dl, fired, cctx, qc, wr, ng, late>>
+ReadQuery(c) == ReadQueryG(c, FALSE)
 
 \* udp: a malformed datagram is skipped
 SkipBad(c) ==
@@ -198,7 +205,8 @@ SkipBad(c) ==
 \* the read fails: the connection goroutine gives up
 ReadBad(c) ==
     /\ rpc[c] = "read"
-    /\ \/ cst[c] = "closed" /\ UNCHANGED pend
+    /\ \/ TCP /\ cst[c] = "closed" /\ UNCHANGED pend
+       \/ ~TCP /\ lst # "open" /\ UNCHANGED pend      \* udp: the socket has been closed
        \/ TCP /\ cst[c] = "open" /\ fired[c] /\ UNCHANGED pend
        \/ TCP /\ cst[c] = "open" /\ ~fired[c] /\ pend[c] # <<>> /\ Head(pend[c]).k \in {"garbage", "eof"}
              /\ pend' = [pend EXCEPT ![c] = Tail(@)]
@@ -233,13 +241,14 @@ Invoke(q) ==
 Write(q) ==
     /\ \/ qst[q] = "replied"
        \/ DEV = "write_twice" /\ qst[q] = "written"
-    /\ cst[qc[q]] = "open"
+    /\ IF TCP THEN cst[qc[q]] = "open"     \* udp: the write succeeds only before the socket is really closed, i.e.
+              ELSE lst # "returned"         \* before ServeUDP returns (its arrival is observed later: trace spec)
     /\ qst' = [qst EXCEPT ![q] = "written"] /\ wr' = [wr EXCEPT ![q] = @ + 1]
     /\ H([a |-> "Write", q |-> q, c |-> qc[q]])
     /\ UNCHANGED <<lst, cst, cl, pend, part, rpc, nread, dl, fired, cctx, qc, ng, late>>
 
 WriteFail(q) ==
-    /\ qst[q] = "replied" /\ cst[qc[q]] = "closed"
+    /\ qst[q] = "replied" /\ (IF TCP THEN cst[qc[q]] = "closed" ELSE lst # "open")
     /\ qst' = [qst EXCEPT ![q] = "failed"]
     /\ H([a |-> "WriteFail", q |-> q, c |-> qc[q]])
     /\ UNCHANGED <<lst, cst, cl, pend, part, rpc, nread, dl, fired, cctx, qc, wr, ng, late>>
@@ -327,7 +336,6 @@ ReadLive == \A q \in Ids : (qst[q] = "read") ~> (qst[q] = "running")
 ServerQuiet == ~ENABLED Server
 
 \* behaviour export
-GenLen == 12
 Emit == (Len(hist) = GenLen) => PrintT(<<"BEH", ToJson([steps |-> hist])>>)
 GenBound == Len(hist) <= GenLen
 
